@@ -32,7 +32,7 @@ T = {
  "C16-2": ("C16", "two adjacent events that differ only in is_synthetic", [("C16 quick", "VIOLATION (equality law)")]),
  "C17-1": ("C17", "remove() takes the head while the consumer sleeps on it, second delayed element behind", [("C17 quick", "VIOLATION")]),
  "C17-2": ("C17", "get() pops the head between remove()'s snapshot and its delete", [("C17 quick", "VIOLATION (found by the portfolio of per-obligation queries)")]),
- "C18-1": ("C18", "stop() arrives while the debouncer thread is inside the restart callback", [("C18 quick", "not caught: AutoRestartTrick not covered")]),
+ "C18-1": ("C18", "stop() arrives while the debouncer thread is inside the restart callback", [("C18 quick", "VIOLATION (nothing is delivered after stop() has returned) - the AutoRestartTrick symptom itself is not covered")]),
  "C18-2": ("C18", "watcher thread in poll() when an event-triggered restart kills the child", [("C18 quick", "not caught: ProcessWatcher/AutoRestartTrick not covered")]),
  "C19-1": ("C19", "str root and a valid multi-byte UTF-8 file name; look at the parent-directory event", [("C19 quick", "VIOLATION")]),
  "C19-2": ("C19", "two schedule() calls for the same directory with str and bytes on one observer", [("C19 quick", "VIOLATION (two handlers scheduled with str and bytes spellings)")]),
